@@ -77,9 +77,13 @@ func Load(repo string, extraContracts string) (*Loaded, error) {
 		again := false
 		for _, p := range pkgs2 {
 			for _, e := range p.Errors {
-				if c := staleContractOf(e.Pos, overlay, cs); c != nil && round < 4 {
+				if c, kind := staleContractOf(e.Pos, overlay, cs); c != nil && round < 4 {
+					loopKind := kind == "invariant" || kind == "decreases"
 					if c.Stale == "" {
 						c.Stale = e.Msg
+						c.StaleLoopsOnly = loopKind
+					} else if !loopKind {
+						c.StaleLoopsOnly = false
 					}
 					again = true
 					continue
@@ -166,6 +170,8 @@ func main() {
 				}
 			}
 		}
+	case "locals":
+		cmdLocals(os.Args[2:])
 	case "verify":
 		cmdVerify(os.Args[2:])
 	case "check":
@@ -336,18 +342,18 @@ func verifyAll(L *Loaded, sel func(c *Contract) bool, workDir string, timeout ti
 
 // staleContractOf maps a type error inside a generated wrapper file to the function contract the
 // wrapper was generated from ("// <key> <kind> [label] (file:line)" precedes every wrapper).
-func staleContractOf(pos string, overlay map[string][]byte, cs *ContractSet) *Contract {
+func staleContractOf(pos string, overlay map[string][]byte, cs *ContractSet) (*Contract, string) {
 	f := strings.Split(pos, ":")
 	if len(f) < 2 {
-		return nil
+		return nil, ""
 	}
 	src, ok := overlay[f[0]]
 	if !ok {
-		return nil
+		return nil, ""
 	}
 	ln, err := strconv.Atoi(f[1])
 	if err != nil {
-		return nil
+		return nil, ""
 	}
 	lines := strings.Split(string(src), "\n")
 	pkgPath := ""
@@ -359,17 +365,76 @@ func staleContractOf(pos string, overlay map[string][]byte, cs *ContractSet) *Co
 	}
 	for i := ln - 1; i >= 0 && i < len(lines); i-- {
 		if strings.HasPrefix(lines[i], "// ") && i+1 < len(lines) && strings.HasPrefix(lines[i+1], "func vc_") {
-			key := strings.Fields(lines[i][3:])[0]
-			key = strings.TrimSuffix(key, ":")
+			fl := strings.Fields(lines[i][3:])
+			key := strings.TrimSuffix(fl[0], ":")
+			kind := ""
+			if len(fl) > 1 {
+				kind = fl[1]
+			}
 			for _, c := range cs.Order {
 				if c.PkgPath == pkgPath && c.Key == key && !c.IsIface && !c.Lemma && !c.External {
-					return c
+					return c, kind
 				}
 			}
-			return nil
+			return nil, ""
 		}
 	}
-	return nil
+	return nil, ""
+}
+
+// cmdLocals records, for every function contract with loop clauses, the function's locals in
+// source order ("//@   locals name:type ..."), so that later pure renames can be followed.
+func cmdLocals(args []string) {
+	fs := flag.NewFlagSet("locals", flag.ExitOnError)
+	repo := fs.String("repo", "/repo", "repository")
+	write := fs.Bool("write", false, "update the contract files in place")
+	fs.Parse(args)
+	L, err := Load(*repo, "")
+	if err != nil {
+		fmt.Fprintln(os.Stderr, err)
+		os.Exit(2)
+	}
+	byFile := map[string][]*Contract{}
+	for _, c := range L.CS.Order {
+		if len(c.Loops) > 0 && len(c.CurLocals) > 0 {
+			byFile[c.File] = append(byFile[c.File], c)
+			if !*write {
+				fmt.Printf("%s: %s\n", c.FullName(), strings.Join(c.CurLocals, " "))
+			}
+		}
+	}
+	if !*write {
+		return
+	}
+	for f, cs := range byFile {
+		b, err := os.ReadFile(f)
+		if err != nil {
+			fmt.Fprintln(os.Stderr, err)
+			os.Exit(2)
+		}
+		lines := strings.Split(string(b), "\n")
+		at := map[int]*Contract{}
+		for _, c := range cs {
+			at[c.Line] = c
+		}
+		var out []string
+		var pending *Contract
+		for i, l := range lines {
+			if strings.HasPrefix(l, "//@   locals ") {
+				continue // rewritten below
+			}
+			out = append(out, l)
+			if c, ok := at[i+1]; ok {
+				pending = c
+			}
+			if pending != nil && strings.HasPrefix(l, "//@   props ") {
+				out = append(out, "//@   locals "+strings.Join(pending.CurLocals, " "))
+				pending = nil
+			}
+		}
+		os.WriteFile(f, []byte(strings.Join(out, "\n")), 0o644)
+		fmt.Printf("%s: %d functions\n", f, len(cs))
+	}
 }
 
 func cmdVerify(args []string) {
